@@ -585,7 +585,7 @@ def run(res, tier):
     for cls in EXECUTORS:
         n += level_role(facts, cls, wroles, res)
     res.floor("C02.2", n, 14, "level-carrying wrapper calls in executors")
-    if tier == "thorough":
+    if tier in ("quick", "thorough"):      # the Specx / StarPU executors (declaration stubs) are analysed on every run: the unit tests never compile them, so nothing else would notice a change there
         sf = tbf.scan("specx")
         res.units.append("umbrella TU 'specx' (declaration stub): Specx executors")
         wr2 = wrapper_param_roles(sf, effects.container_map(sf))
